@@ -202,12 +202,23 @@ structure DS where
   tbl : List Dig := []
   j : JState := {}
 
+def hasDupCmd : List PRec → Bool
+  | [] => false
+  | p :: ps => ps.any (fun q => decide (q.m.cmd = p.m.cmd)) || hasDupCmd ps
+
+/-- a `fresh`-kind store already holds one command twice (the known finding
+    `server-allocated-unkeyed-evicted` has happened): MessageDB's by-command index is overwritten
+    from then on and its later answers are not modelled, so the rest of such a case is judged but
+    not compared -/
+def Sys.indexCorrupted (s : Sys) : Bool := s.nodes.any (fun nd => nd.store.fresh && hasDupCmd nd.store.props)
+
 def replStep (judge : JState → Op → Obs → String) (st : DS) (opLine impl : String) : DS × String × String :=
   match parseOp opLine with
   | none => (st, "bad-op", if impl == "bad-op" then "ok" else "viol:malformed-op-accepted")
   | some o =>
     let (sys, res) := step st.sys o
     let (tbl, out) := renderAll st.tbl sys res
+    let out := if st.sys.indexCorrupted then "-" else out
     if impl == "bad-op" then ({ st with sys := sys, tbl := tbl }, out, "ok") else
     let cur := parseObs impl
     let verdict := if !cur.wellFormed then "viol:unparseable-output" else judge st.j o cur
